@@ -11,6 +11,14 @@ the next read):
     cases, a random subset in the random ones) have been read in ONE copy only (the copy is a case parameter), for a
     second clone taken at that moment, after all fields of both copies have been read, and for the second clone which
     was never read (signature clone-not-equal-after-read / clone-written-form-differs-after-read);
+  * declared datatypes: a line read at level 0 keeps, for EVERY tag, the datatype letter written in the file, also when
+    the tag is a predefined one of its record type and the specification prescribes another datatype (float read / k-mer
+    counts KC:f:, RC:f:, LN:f:, NM:f:, TS:f:, ID:A:, UR:J:, VN:A: ...); the library writes such a line back as it was
+    read, so the clone must be written in the same way.  The kinds S1d, S2d, Ld, Cd, Ed, Etd, Fd (stand-alone and
+    connected) and Hd (stand-alone) carry every predefined tag of their record type with a datatype which is not the
+    prescribed one, next to custom tags; they exist at level 0 only (higher levels refuse the text).  All the checks
+    above and below apply to them; in addition, for every line, get_datatype(tag) of the clone equals that of the
+    original for every tag (signature clone-datatype-differs) - the datatype letter is part of the written form;
   * identity graph: no mutable object (list, dict, CIGAR, Operation, Trace, NumericArray, OrientedLine, LastPos,
     FieldArray) reachable through get() from the clone `is` one reachable from the original;
   * an edit script (append / item assignment / pop on every reachable list, key assignment on every dict, attribute
@@ -26,7 +34,10 @@ NOT CHECKED
     such a field re-spells it in the copy which is read (a documented normalisation, C01), so that written form and ==
     of the two copies differ until the other copy is read too; the documents here use the canonical spelling;
   * equality of two clones with each other; what assigning a string does to the line itself (a case in which it
-    changes str(line) is dropped).
+    changes str(line) is dropped);
+  * predefined tags with a non-prescribed datatype in situations the library does not accept in the first place: at
+    levels >= 1, as the name tag (ID) of a connected link with a non-string value, in the header of a Gfa (a TS:f: header
+    line is refused by Gfa.add_line even at level 0, hence Hd is stand-alone only).
 """
 from harness import lib
 from harness.props import _misc as M
@@ -34,11 +45,14 @@ from harness.props import _misc as M
 ID = "C19"
 RULE = ("exhaustive: 21 kinds of line (H with single and repeated tags, GFA1 S/L/C/P, comment, GFA2 S/E with CIGAR, trace and "
         "placeholder/F/G/O/U/custom record, virtual segment, virtual link, virtual unknown line), each with tags of the 7 "
-        "datatypes (two B subtypes), stand-alone and connected, levels 0-3, fields read before cloning or not, the whole edit "
+        "datatypes (two B subtypes), stand-alone and connected, levels 0-3, plus 8 kinds (GFA1 S/L/C, GFA2 S/E/E-trace/F, "
+        "H stand-alone only) read at level 0 whose predefined tags are declared with a datatype other than the prescribed one "
+        "(KC:f, RC:f, LN:f, NM:f, TS:f/J/Z, ID:A, UR:J, SH:Z, VN:A ...), fields read before cloning or not, the whole edit "
         "script applied to the clone / to the original; random: the same matrix with a random sub-sequence of edits in "
         "random order, 60% of the not-read ones with a random subset of fields re-assigned as strings before cloning, a "
         "random subset of fields read in one random copy after cloning. Every case: equality and written form again "
-        "after reading one copy only, for a second clone taken then, and after reading both. Non-trivial: the line holds "
+        "after reading one copy only, for a second clone taken then, and after reading both; get_datatype of every tag "
+        "is the same in the clone. Non-trivial: the line holds "
         "at least one mutable value (all but comments).")
 
 TAGS = "ti:i:-5\ttf:f:1.5\ttz:Z:a b\tta:A:x\ttj:J:{\"k\": [1, {\"m\": 2}], \"l\": []}\ttb:B:c,-1,2\tth:H:0AF1\ttF:B:f,1.5,2.5"
@@ -61,7 +75,23 @@ DOC2 = ["H\tVN:Z:2.0\tTS:i:10\t" + TAGS,
         "U\tu\tA g o zz\t" + TAGS,
         "X\tcust\tf2\t" + TAGS]
 
-# kind -> (version, text for the stand-alone form or None, finder in the connected form)
+# Documents whose predefined tags are declared with a datatype which is NOT the one of the specification (readable at
+# level 0 only, where the datatype written in the file is kept for every tag).  Canonical spellings throughout.
+CTAGS = "ti:i:-5\ttj:J:{\"k\": [1, {\"m\": 2}]}\tta:A:x"
+DOC1D = ["H\tVN:Z:1.0\tzz:i:1", "H\tzz:i:2",
+         "S\tA\tACGT\tLN:f:4.0\tRC:f:12.25\tFC:Z:many\tKC:f:2512.5\tSH:Z:0AF1\tUR:J:[\"a.fa\", {\"k\": 1}]\t" + CTAGS,
+         "S\tB\t*\tLN:i:5",
+         "L\tA\t+\tB\t-\t2M1I\tID:A:x\tMQ:f:1.5\tNM:Z:none\tRC:B:c,-1,2\tFC:J:{\"n\": [1, 2]}\tKC:f:0.5\t" + CTAGS,
+         "C\tA\t+\tB\t+\t1\t2M\tID:A:c\tMQ:Z:high\tNM:f:0.0\t" + CTAGS,
+         "P\tp\tA+,B-\t2M1I"]
+DOC2D = ["H\tVN:Z:2.0\tzz:i:1",
+         "S\tA\t4\tACGT\tRC:f:12.25\tFC:A:m\tKC:f:2512.5\tSH:Z:0AF1\tUR:J:{\"file\": \"x.fa\"}\t" + CTAGS, "S\tB\t5\t*",
+         "E\te1\tA+\tB-\t2\t4$\t3\t5$\t2M1I\tTS:f:1.5\t" + CTAGS,
+         "E\te2\tA+\tB+\t0\t4$\t0\t5$\t4,2\tTS:J:[1, 2]",
+         "F\tA\tr+\t0\t4$\t0\t2$\t1M1D\tTS:Z:ten\t" + CTAGS]
+HD_TEXT = "H\tVN:A:2\tTS:f:10.5\tzz:i:1\t" + CTAGS
+
+# kind -> (version, text for the stand-alone form or None, finder in the connected form or None)
 KINDS = {
     "H": ("gfa1", DOC1[0], lambda g: g.header),
     "S1": ("gfa1", DOC1[3], lambda g: g.segment("A")),
@@ -83,8 +113,29 @@ KINDS = {
     "U": ("gfa2", DOC2[9], lambda g: g.line("u")),
     "X": ("gfa2", DOC2[10], lambda g: g.custom_records[0]),
     "vU": ("gfa2", None, lambda g: g.line("zz")),
+    # declared datatypes (level 0 only)
+    "S1d": ("gfa1", DOC1D[2], lambda g: g.segment("A")),
+    "Ld": ("gfa1", DOC1D[4], lambda g: [l for l in g.dovetails if not l.virtual][0]),
+    "Cd": ("gfa1", DOC1D[5], lambda g: g.containments[0]),
+    "Hd": ("gfa2", HD_TEXT, None),
+    "S2d": ("gfa2", DOC2D[1], lambda g: g.segment("A")),
+    "Ed": ("gfa2", DOC2D[3], lambda g: g.line("e1")),
+    "Etd": ("gfa2", DOC2D[4], lambda g: g.line("e2")),
+    "Fd": ("gfa2", DOC2D[5], lambda g: g.fragments[0]),
 }
 KIND_LIST = list(KINDS)
+DECLARED = {"S1d", "Ld", "Cd", "Hd", "S2d", "Ed", "Etd", "Fd"}
+
+
+def levels_of(kind):
+    return (0,) if kind in DECLARED else (0, 1, 2, 3)
+
+
+def doc_of(kind):
+    ver = KINDS[kind][0]
+    if kind in DECLARED:
+        return DOC1D if ver == "gfa1" else DOC2D
+    return DOC1 if ver == "gfa1" else DOC2
 
 
 def _plan():
@@ -93,7 +144,9 @@ def _plan():
         for connected in (False, True):
             if not connected and KINDS[k][1] is None:
                 continue
-            for v in (0, 1, 2, 3):
+            if connected and KINDS[k][2] is None:
+                continue
+            for v in levels_of(k):
                 for touch in (False, True):
                     for target in ("clone", "orig"):
                         P.append({"kind": k, "connected": connected, "vlevel": v, "touch": touch, "target": target, "order": None})
@@ -194,6 +247,13 @@ def walk(gfapy, line):
 def fieldnames(line):
     try:
         return list(line.positional_fieldnames) + list(line.tagnames)
+    except Exception:
+        return []
+
+
+def tagnames(line):
+    try:
+        return list(line.tagnames)
     except Exception:
         return []
 
@@ -320,8 +380,7 @@ def build(case):
     gfapy = lib.import_gfapy()
     ver, text, finder = KINDS[case["kind"]]
     if case["connected"]:
-        g = gfapy.Gfa(DOC1 if ver == "gfa1" else DOC2, vlevel=0 if case["vlevel"] == 0 else case["vlevel"], version=ver) \
-            if case["vlevel"] != 0 else gfapy.Gfa(DOC1 if ver == "gfa1" else DOC2, vlevel=0, version=ver)
+        g = gfapy.Gfa(doc_of(case["kind"]), vlevel=case["vlevel"], version=ver)
         return g, finder(g)
     return None, gfapy.Line(text, vlevel=case["vlevel"], version=ver)
 
@@ -337,7 +396,7 @@ def oracle(case):
         try:
             ver = KINDS[case["kind"]][0]
             g = gfapy.Gfa(vlevel=case["vlevel"], version=ver)
-            for l in (DOC1 if ver == "gfa1" else DOC2):
+            for l in doc_of(case["kind"]):
                 g.add_line(l)
             line = KINDS[case["kind"]][2](g)
         except Exception as e2:
@@ -380,6 +439,17 @@ def oracle(case):
         F.append("clone-unwritable: %s: str(clone) raises (%s), original is %r" % (what, s_clone, s_line))
     elif s_clone != s_line:
         F.append("clone-written-form-differs: %s: original %r clone %r" % (what, s_line, s_clone))
+    # ---- the datatype letter of every tag is part of the written form
+    for t in tagnames(line):
+        try:
+            dl, dc = line.get_datatype(t), c.get_datatype(t)
+        except Exception as e:
+            F.append("foreign-exception: %s: get_datatype(%r) raised %s@%s" % (what, t, e.__class__.__name__, M.innermost_gfapy_frame(e)))
+            continue
+        if dl != dc:
+            F.append("clone-datatype-differs: %s: tag %s has datatype %r in the original, %r in the clone (original %r clone %r)" % (
+                what, t, dl, dc, s_line, s_clone))
+
     def check_equal(sig, stage, x, xname):
         try:
             if not (x == line):
